@@ -103,8 +103,9 @@ def unpack_attrs(a):
                        '_image_levels']
     for attr in dict_without(attr_ref, attrs_to_ignore):
         if attr_ref[attr]:
+            shape = [len(coord) for coord in attr_ref[attr].values()]
             new_attrs[attr] = xr.DataArray(
-                a[attr],
+                np.reshape(a[attr], shape),
                 coords=attr_ref[attr],
                 dims=list(attr_ref[attr].keys()))
         elif attr in a:
